@@ -56,11 +56,13 @@ def prepare(prop_id: str | None = None) -> dict:
 
     Returns {tables: {...}, driver_ok, proofs_ok, log}.  Serialised across concurrent checks.
     """
+    import gen_driver
     import tables_from_source
 
     info = {}
     with _Lock("lake.lock"):
         info["tables"] = tables_from_source.regenerate()
+        gen_driver.generate()
         rc, log = _lake("driver")
         info["driver_ok"] = rc == 0
         info["driver_log"] = log[-4000:] if rc else ""
